@@ -218,10 +218,34 @@ def run_print(chk, bindir, tier):
                     "%s of %d bytes over a pipe (%d signals): descriptor received %d bytes, first difference at %d, newline %s, result %s" % (
                         r["kind"], r["len"], r["signals"], r["rlen"], r["mismatch"], r["nl"], {0: "Err", 1: "Ok", 2: "discarded"}[r["ok"]]),
                     {"mode": "print", "record": r})
+    # the helpers on a File over a kernel pipe, real EINTR / short transfers
+    p = core.run_cmd([os.path.join(bindir, "iohelp"), "pipe", str(chk.seed), str(3 if tier == "quick" else 40)], timeout=1800)
+    precs = [json.loads(l) for l in p.stdout.splitlines() if l.strip()]
+    if not precs:
+        raise core.ToolError("iohelp pipe produced nothing: " + p.stderr[-500:])
+    path = os.path.join(chk.work, "pipe.ndjson")
+    core.write_ndjson(path, precs)
+    res = core.run_tlc("IoHelpersTrace.tla", "IoHelpersPrint.cfg", workers=1, env={"TRACE": path}, timeout=900,
+                       metadir=os.path.join(chk.work, "md_pipe_%d" % os.getpid()))
+    core.tlc_must_pass(res, "IoHelpersTrace (pipe records)")
+    j = res.printed("JUDGED")
+    if len(j) != 1 or j[0]["n"] != len(precs):
+        raise core.ToolError("pipe records not judged: " + res.out[-1000:])
+    chk.add_tlc(res)
+    chk.traces += len(precs)
+    for i in j[0]["bad"]:
+        r = precs[i - 1]
+        kind = "error" if r["ok"] != 1 else ("count" if r["mismatch"] == -1 and r["rlen"] == r["len"] else "lost_or_duplicated")
+        chk.violate({"op": "pipe_" + r["kind"], "kind": kind},
+                    "%s of %d bytes on a File over a pipe (%d signals): ok=%s, %d bytes arrived, first difference at %d, count %d" % (
+                        r["kind"], r["len"], r["signals"], r["ok"], r["rlen"], r["mismatch"], r["count"]),
+                    {"mode": "pipe", "record": r})
+    chk.extra["pipe_runs"] = len(precs)
+    chk.extra["pipe_signals_sent"] = sum(r["signals"] for r in precs)
     chk.extra["print_path_runs"] = len(recs)
     chk.extra["print_path_runs_with_signal_during_write"] = sum(1 for r in recs if r["signals"] > 0)
     chk.extra["print_path_cut_short_by_eintr"] = sum(1 for r in recs if r["rlen"] < r["len"])
-    return recs
+    return recs + precs
 
 
 # ------------------------------------------------------------------------------------------
